@@ -188,10 +188,35 @@ def A_arms(ctx, bin_):
             pis = flow.find(e, lambda n_: n_[0] == "call" and flow.last(n_[2]) == "print_interpretation")
             if pis:
                 prints.append((bb, t, pis[0]))
+    # the iterator spelling of a printing loop: <semantics call>.for_each(|model| print!("{}", X.print_interpretation(&model)))
+    closure_prints = []
+    roles_run, _ = flow.closure_roles(run)
+    for r_ in roles_run.values():
+        if r_.adaptor != "for_each":
+            continue
+        cb_ = bin_.body(r_.closure_def)
+        if cb_ is None:
+            continue
+        cd_ = flow.Defs(cb_)
+        caps_ = flow.resolve_captures_local(bin_, cb_) if hasattr(flow, "resolve_captures_local") else None
+        for cbb, ct, cci in cb_.calls():
+            cp = flow.sg(ir.callee_path(cci) or "")
+            if cp.endswith(("io::_print", "io::stdio::_print")):
+                ce = cd_.expr_call(ct, cbb)
+                pis = flow.find(ce, lambda n_: n_[0] == "call" and flow.last(n_[2]) == "print_interpretation")
+                if pis and flow.find(pis[0][3][1], lambda n_: n_ == ("param", 2)):
+                    holder = pis[0][3][0]
+                    if caps_:
+                        holder = flow.subst_upvars(holder, caps_)
+                    closure_prints.append((r_, cb_, ct, pis[0], holder))
     n_ok = 0
     for bb, t, p, cls in calls:
         se = d.expr_call(t, bb)
         mine = []
+        for r_, cb_, ct, pi, holder in closure_prints:
+            if flow.find(r_.receiver, lambda n_: n_ == se):
+                blk = [b2 for b2, t2, c2 in run.calls() if d.expr_call(t2, b2) == r_.call]
+                mine.append((blk[0] if blk else bb, ct, pi, holder))
         for pb, pt, pi in prints:
             model = pi[3][1]
             holder = pi[3][0]
